@@ -308,6 +308,7 @@ func init() {
 		c.rulesR4bounds2()
 		c.rulesR4fresh()
 		c.rulesR4nilctx()
+		c.rulesR6delall()
 		c.rulesR4scanall()
 		c.rulesR4qdone()
 		c.rulesR4clone()
